@@ -34,7 +34,7 @@ fn span() -> gherkin::Span {
     gherkin::Span { start: 0, end: 0 }
 }
 
-const TAGS: &[&str] = &["a", "b", "c", "wip", "slow", "x.y"];
+const TAGS: &[&str] = &["a", "b", "c", "wip", "slow", "x.y", "ab", "slower"];
 
 fn rand_tags(r: &mut Rng) -> Vec<String> {
     let n = r.below(3);
@@ -340,7 +340,19 @@ pub fn c15(seed: u64, idx: u64, t: &mut Tally) {
     let input: Vec<parser::Result<gherkin::Feature>> = feats.iter().cloned().map(Ok).collect();
     let cuc = Cucumber::<TW, VecParser, (), RecRunner, Collect, cli::Empty>::custom(VecParser(input), rec.clone(), Collect::default())
         .with_cli(opts);
-    let _ = block_on(cuc.filter_run((), closure));
+    // builder methods that wrap the writer keep what with_cli() was given
+    let chain = r.below(7);
+    match chain {
+        1 => drop(block_on(cuc.fail_on_skipped().filter_run((), closure))),
+        2 => drop(block_on(cuc.fail_on_skipped_with(|_, _, _| true).filter_run((), closure))),
+        3 => drop(block_on(cuc.repeat_skipped().filter_run((), closure))),
+        4 => drop(block_on(cuc.repeat_failed().filter_run((), closure))),
+        5 => drop(block_on(cuc.repeat_if(|_| false).filter_run((), closure))),
+        _ => drop(block_on(cuc.filter_run((), closure))),
+    }
+    if chain >= 1 && chain <= 5 {
+        t.count("c15.runs_with_a_writer_wrapper_added_after_with_cli", 1);
+    }
     let got: Vec<gherkin::Feature> = rec.0.borrow().iter().filter_map(|f| f.as_ref().ok().cloned()).collect();
 
     let re = name_re.as_ref().map(|s| Regex::new(s).unwrap());
@@ -824,14 +836,32 @@ const REGEXES: &[&str] = &[
     r"^(\w+) (\w+)$",
     r"^日本(語)?$",
     r"^()$",
+    // literal runs ending in a quantified character, a bare top-level alternation, builder flags
+    r"^cucumbers? are (\d+)$",
+    r"^I wait a lo*ng time$",
+    r"^apples|pears$",
+    r"CI:^foo is (\d+)$",
 ];
 const TEXTS: &[&str] = &[
     "step 1", "step 22 with foo", "step", "bob eats 3", "bob eats 3 apples", "éüüß tail", "éß x", "ad", "abd", "abcd", "12 cukes", "has 5 cukes here",
     "x", "yz", "zz", "hello world", "日本", "日本語", "", "step x",
+    "cucumber are 3", "cucumbers are 3", "I wait a lng time", "I wait a looong time", "ripe pears", "apples pie", "FOO is 7", "foo is 7",
 ];
 
 thread_local! {
-    static RX: Vec<Regex> = REGEXES.iter().map(|r| Regex::new(r).unwrap()).collect();
+    // "CI:" = the same pattern compiled through RegexBuilder with case_insensitive(true)
+    static RX: Vec<Regex> = REGEXES
+        .iter()
+        .map(|r| match r.strip_prefix("CI:") {
+            Some(p) => regex::RegexBuilder::new(p).case_insensitive(true).build().unwrap(),
+            None => Regex::new(r).unwrap(),
+        })
+        .collect();
+}
+
+/// The pattern text a pool entry compiles from.
+fn pat(src: &str) -> &str {
+    src.strip_prefix("CI:").unwrap_or(src)
 }
 
 /// Compiled regex for one of `REGEXES` (compiled once per process, cloned cheaply).
@@ -940,7 +970,7 @@ pub fn c17(seed: u64, idx: u64, t: &mut Tally) {
                 }
                 (k, Err(e)) if k >= 2 => {
                     let got: Vec<(String, Option<step::Location>)> = e.possible_matches.iter().map(|(re, l)| (re.to_string(), *l)).collect();
-                    let mut exp: Vec<(String, Option<step::Location>)> = matching.iter().map(|&i| (defs[i].1.to_owned(), defs[i].2)).collect();
+                    let mut exp: Vec<(String, Option<step::Location>)> = matching.iter().map(|&i| (pat(defs[i].1).to_owned(), defs[i].2)).collect();
                     let mut g2 = got.clone();
                     g2.sort();
                     exp.sort();
